@@ -364,3 +364,12 @@ def ws_change_next_to_deletion(trace, viol):
                     seen[path] = ln
             content[path] = c
     return False
+
+
+@predicate("clock_order")
+def clock_order(trace, viol):
+    """the checkpoint clock stood still or stepped back between two checkpoints of the history"""
+    if viol.get("class") not in LEDGER_CLASSES:
+        return False
+    st = viol.get("step")
+    return isinstance(st, int) and any((o.get("dt", 1) or 0) <= 0 for o in _ops(trace)[:st + 1] if o.get("op") == "edit")
